@@ -239,7 +239,7 @@ func reaches(a, b *ssa.BasicBlock) bool {
 }
 
 func checkLayoutPipeline(w *World, r *Report) {
-	r.Rule("pipeline: in (*Layouter).Layout the character-map lookup, the GSUB application, the advance-width assignment and the GPOS application occur in this order on the control-flow graph (no path leads from a later stage back to an earlier one)")
+	r.Rule("pipeline: in (*Layouter).Layout the character-map lookup, the GSUB application, the advance-width assignment and the GPOS application occur in this order on the control-flow graph (no path leads from a later stage back to an earlier one), and the GSUB and GPOS applications are control-dependent on nothing but the nil test of their own table and tests for an empty sequence (no other condition on the text or the glyph sequence)")
 	fn := w.Func("(*sfnt.Layouter).Layout")
 	if fn == nil {
 		r.Fatal("anchor (*sfnt.Layouter).Layout does not resolve")
@@ -289,6 +289,37 @@ func checkLayoutPipeline(w *World, r *Report) {
 		if len(stage[s]) == 0 {
 			r.Fail("pipeline", r.MkKey("pipeline", name, "stage "+s), w.Pos(fn.Pos()), "stage "+s+" not found in Layout", nil)
 			return
+		}
+	}
+	// a table that is present is applied to every text: the Apply calls are
+	// control-dependent on nothing but the nil test of their own table
+	cc := controlConds(fn)
+	for _, s := range []string{"gsub", "gpos"} {
+		for _, b := range stage[s] {
+			key := r.MkKey("pipeline", name, "stage "+s+" runs whenever the table is present")
+			bad := ""
+			for _, c := range cc[b] {
+				okc := false
+				if bo, ok := c.(*ssa.BinOp); ok && isNilTest(c) {
+					if recvField(bo.X) == s || recvField(bo.Y) == s {
+						okc = true
+					}
+				}
+				if !okc && isEmptinessTest(c) {
+					okc = true // nothing to apply the lookups to
+				}
+				if !okc {
+					bad = w.Pos(c.Pos())
+					if bad == "" || bad == "-" {
+						bad = c.String()
+					}
+				}
+			}
+			if bad != "" {
+				r.FailC("pipeline", key, []string{"conditional"}, w.Pos(stagePos[s].Pos()), fmt.Sprintf("the %s stage of Layout also depends on the condition at %s: for some texts the lookups of a table that is present are not applied", s, bad), nil)
+			} else {
+				r.OK("pipeline", key, w.Pos(stagePos[s].Pos()), "guarded only by the nil test of l."+s)
+			}
 		}
 	}
 	for i := 0; i+1 < len(order); i++ {
@@ -1051,4 +1082,49 @@ func sameMapValue(a, b ssa.Value) bool {
 		}
 	}
 	return strip(a) == strip(b)
+}
+
+// isEmptinessTest: len(x) compared with 0 for (in)equality, or len(x) > 0 /
+// len(x) >= 1 and their mirror images.
+func isEmptinessTest(v ssa.Value) bool {
+	b, ok := v.(*ssa.BinOp)
+	if !ok {
+		return false
+	}
+	isLen := func(x ssa.Value) bool {
+		c, ok := x.(*ssa.Call)
+		if !ok {
+			return false
+		}
+		bi, ok := c.Call.Value.(*ssa.Builtin)
+		return ok && bi.Name() == "len"
+	}
+	constOf := func(x ssa.Value) (int64, bool) {
+		c, ok := x.(*ssa.Const)
+		if !ok || c.Value == nil {
+			return 0, false
+		}
+		return c.Int64(), true
+	}
+	if isLen(b.X) {
+		if k, ok := constOf(b.Y); ok {
+			switch {
+			case k == 0 && (b.Op == token.EQL || b.Op == token.NEQ || b.Op == token.GTR || b.Op == token.LEQ):
+				return true
+			case k == 1 && (b.Op == token.GEQ || b.Op == token.LSS):
+				return true
+			}
+		}
+	}
+	if isLen(b.Y) {
+		if k, ok := constOf(b.X); ok {
+			switch {
+			case k == 0 && (b.Op == token.EQL || b.Op == token.NEQ || b.Op == token.LSS || b.Op == token.GEQ):
+				return true
+			case k == 1 && (b.Op == token.LEQ || b.Op == token.GTR):
+				return true
+			}
+		}
+	}
+	return false
 }
